@@ -147,6 +147,7 @@ void prop_gen(Ctx &c) {
 		return c; });
 	auto genEasterList = rc::gen::container<std::vector<int>>(3, R(-366, 367));
 	rc::check("C17 sampled", [&]() {
+		if (c.shrink_exhausted()) return;
 		if (*R(0, 10) < 2) {
 			std::vector<int> ns = *genEasterList; std::string list; for (size_t i = 0; i < ns.size(); i++) { if (i) list += ","; list += std::to_string(ns[i]); }
 			if (c.excl("byeaster_cross_year")) { for (int n : ns) if (n < -80 || n > 245) { c.st.excluded["byeaster_cross_year"]++; return; } }
